@@ -52,6 +52,13 @@ fn split_kv(line: &[u8]) -> (Vec<u8>, Vec<u8>) {
 
 /// Apply a fault list; purely mechanical.
 pub fn apply(base: &Base, ops: &[Value]) -> Vec<u8> {
+    // a "doc" fault replaces the whole file by another rendering of the specification (structural defect with a consistent layout)
+    let replaced: Option<Base> = ops.iter().rev().find(|o| vs(&o["op"]) == "doc").map(|o| Base {
+        lines: va(&o["voice"]["header"]).iter().map(|l| vs(l).as_bytes().to_vec()).collect(),
+        toks: va(&o["voice"]["data"]).clone(),
+        raw: vec![],
+    });
+    let base = replaced.as_ref().unwrap_or(base);
     let mut lines = base.lines.clone();
     let mut toks = base.toks.clone();
     let mut late: Vec<&Value> = Vec::new();
@@ -115,6 +122,7 @@ pub fn apply(base: &Base, ops: &[Value]) -> Vec<u8> {
                 }
             }
             "flip" | "cut" => late.push(op),
+            "doc" => {}
             other => die(&format!("unknown fault op {}", other)),
         }
     }
